@@ -507,6 +507,13 @@ def main():
     for n in CONTAINER_TYPES + ["EVerMid", "SWithOnly", "EDir", "EOnly", "SVerOrder", "SAbiRem", "SMidRange"]:
         nat.append('        // n(nschema_%s, "C12", "derive WithSchema for %s; savefile::get_schema; derive Serialize", "small-scope values of %s at its current version");' % (n, n, n))
         nat.append('        ("nschema_%s", (|s: &mut crate::src::EnumSrc| crate::schemaread::schema_faithful::<crate::family_gen::%s, _>(s)) as fn(&mut crate::src::EnumSrc)),' % (n, n))
+    xnat = []
+    for hname, hist in HISTORIES.items():
+        for i, o in enumerate(hist):
+            for j, nw in enumerate(hist):
+                if i < j:
+                    xnat.append('        // n(nevo_%s_%s, "C03,C05", "savefile::save; savefile::save_compressed; savefile::load; Deserializer::load_impl (schema gate at the file version, plain and bzip2 branches); derive Deserialize for %s reading version-%d data", "small-scope values of %s; plain and compressed container with schema");' % (o.name, nw.name, nw.name, o.version, o.name))
+                    xnat.append('        ("nevo_%s_%s", (|s: &mut crate::src::EnumSrc| crate::native_crypto::evolve_container::<crate::family_gen::%s, crate::family_gen::%s, _>(s)) as fn(&mut crate::src::EnumSrc)),' % (o.name, nw.name, o.name, nw.name))
     for n in ["SVerOrder", "SAbiRem", "SMidRange"]:
         nat.append('        // n(nschema_versions_%s, "C12", "derive WithSchema for %s at every version <= current; savefile::get_schema; derive Serialize writing older versions", "small-scope values of %s, every version 0..=current");' % (n, n, n))
         nat.append('        ("nschema_versions_%s", (|s: &mut crate::src::EnumSrc| crate::schemaread::schema_faithful_versions::<crate::family_gen::%s, _>(s)) as fn(&mut crate::src::EnumSrc)),' % (n, n))
@@ -516,6 +523,7 @@ def main():
         nat.append('        // n(nintro_%s, "C17", "derive Introspect for %s (introspect_len; introspect_child)", "small-scope values of %s, recursively to depth 4, indices 0..len, len..2len+1 and near usize::MAX");' % (n, n, n))
         nat.append('        ("nintro_%s", (|s: &mut crate::src::EnumSrc| crate::native_misc::intro_family::<crate::family_gen::%s, _>(s)) as fn(&mut crate::src::EnumSrc)),' % (n, n))
     nat += ["    ]", "}"]
+    nat += ["#[cfg(feature = \"xnative\")]", "pub fn native_family_registry_x() -> Vec<(&'static str, fn(&mut crate::src::EnumSrc))> {", "    vec!["] + xnat + ["    ]", "}"]
     open(os.path.join(OUT, "native_family.rs"), "w").write("\n".join(nat) + "\n")
     open(os.path.join(OUT, "family_gen.rs"), "w").write("\n".join(out))
     reg.append("}")
